@@ -251,6 +251,9 @@ class BodyInfo:
         """CFG edges taken when the result of `site` matches the chain of variant labels, e.g.
         ('Ready',), ('Ready', 'Some'), ('Ready', 'Err'), (True,), (False,).
         Returns list of edges (a, b); empty if no such test exists."""
+        pe = getattr(site, "pseudo_edges", None)
+        if pe is not None:
+            return list(pe.get(labels[-1], [])) if len(labels) == 1 else []
         tests = self.outcome_tests(site)
         edges = []
         want_path = []
